@@ -21,16 +21,20 @@ pub fn salt(p: &str) -> u64 {
     p.bytes().fold(0xABCD_u64, |a, b| a.wrapping_mul(131).wrapping_add(b as u64))
 }
 
-/// (runs, wall-clock budget in seconds)
+/// (runs, wall-clock budget in seconds). Run counts are fixed so that a given seed always
+/// explores the same cases; the budget is only a safety cap for slow machines.
 pub fn tier_size(p: &str, thorough: bool) -> (u64, u64) {
-    let (q, t) = match p {
-        "C09" => (60_000, 3_000_000),
-        _ => (48_000, 4_000_000),
+    // approximate cost classes measured on the 16-core sandbox (runs per second)
+    let per_s: u64 = match p {
+        "C04" => 7_000,
+        "C03" | "C06" => 12_000,
+        "C01" | "C02" => 16_000,
+        _ => 20_000,
     };
     if thorough {
-        (t, 780)
+        (per_s * 600, 840)
     } else {
-        (q, 40)
+        (per_s * 20, 45)
     }
 }
 
@@ -74,6 +78,17 @@ pub fn generate(p: &str, seed: u64) -> (Scenario, SchedCfg) {
         "C08" => families::blockrecv(sub),
         "C14" => families::futpark(sub),
         _ => families::core(sub, "core", &CoreOpts::default()),
+    }
+}
+
+/// Property-specific part of the non-triviality rule (evidence text).
+pub fn nontrivial_extra(p: &str) -> &'static str {
+    match p {
+        "C08" => "; for C08 additionally a consumer must have entered the wait strategy (a blocking receive that found the queue empty)",
+        "C14" => "; for C14 additionally at least one task must have parked (NotReady returned to the executor)",
+        "C04" => "; for C04 additionally a clone or view must have been suspended in the middle (slow_clone / slow_view fired)",
+        "C07" => "; for C07 additionally an end-of-stream result must have been reported while the run was still concurrent",
+        _ => "",
     }
 }
 
